@@ -1826,6 +1826,7 @@ def bounded_fallback(run, prog, fname, reason):
                 continue
             it = Interp(prog)
             it.builtin_hook = gf2.builtin_hook(it)
+            it.ext_hook = gf2.ext_hook(it)
             it.NO_CRC_SUMMARY, it.FAST_CRC = True, False
             it.MAX_STEPS = 2_000_000
             order = kw.get('byteorder', K('big' if fname == 'crc16' else 'little')).v
@@ -1837,6 +1838,9 @@ def bounded_fallback(run, prog, fname, reason):
                 raise AnalysisError(f'{fname}: {reason}; and the general interpreter cannot follow it on a symbolic {n}-byte input either: {e}')
             if isinstance(res, K) and isinstance(res.v, (bytes, bytearray)):
                 res = gf2.GFBytes(Vec.const(int.from_bytes(res.v, order)), len(res.v), order)
+            if not isinstance(res, (gf2.GFBytes, str, K)):
+                # an opaque term: the routine left the affine domain through an operation the domain has no rule for - no verdict
+                raise AnalysisError(f'{fname}: {reason}; and on a symbolic {n}-byte input its result is outside the affine domain: {str(res)[:120]}')
             ok = isinstance(res, gf2.GFBytes) and res.vec == want and res.nbytes == spec['nbytes'] and res.order == order
             run.evaluations += 1
             if ok:
